@@ -259,6 +259,10 @@ TableStep ==
     /\ InTop("T")
     /\ IF Ok THEN /\ NotDrawn(Top)
                   /\ Drift(Top.last = "N" /\ Top.ply > 0 /\ ~IsPv(Top), "table-return-in-a-pv-or-root-node", [ply |-> Top.ply])
+                  \* a stored mate score counts from the node it was stored at: read back, it counts from the root again
+                  /\ Drift(E.v[3] = (IF E.v[2] > MateV - 100 THEN E.v[2] - Top.ply
+                                     ELSE IF E.v[2] < 100 - MateV THEN E.v[2] + Top.ply ELSE E.v[2]),
+                           "table-score-mate-distance", [ply |-> Top.ply, stored |-> E.v[2], used |-> E.v[3]])
                   /\ Set([Top EXCEPT !.last = "T", !.lv = <<E.v[1], E.v[2], E.v[3]>>])
        ELSE UNCHANGED st
     /\ Keep /\ Bump("T")
